@@ -107,6 +107,9 @@ PROFILES["C16"] = [
            p_early_removal=0.0, p_allow_dup=0.3, p_restrict=0.2)),
     (2, _p(world="mem", kinds=["fifo_bo", "hb_promotion_bo", "hb_stopping_bo"], p_fault_free=0.7, fault_kinds=["crash"], p_nodelay_false=0.0,
            max_trials=6, p_restrict=0.5, p_tiny_space=0.5, p_pte=0.5)),
+    # GP searchers on enumerable spaces with restrict_configurations (the list shrinks as configurations are used)
+    (2, _p(world="mem", kinds=["fifo_bo", "hb_promotion_bo", "hb_stopping_bo"], p_fault_free=0.7, fault_kinds=["crash"], p_nodelay_false=0.0,
+           max_trials=6, p_restrict=1.0, p_tiny_space=1.0, simple_finite=True, p_pte=0.5)),
     # searcher options off the default path: duplicates allowed (failed configurations stay blacklisted), tiny finite spaces, failures
     (2, _p(world="mem", kinds=["fifo_random", "hb_stopping", "hb_promotion", "median", "sync_hb"], p_fault_free=0.0, fault_kinds=["crash"],
            p_nodelay_false=0.0, max_trials=14, p_tiny_space=1.0, p_allow_dup=1.0, p_early_removal=0.0, p_pte=0.3)),
